@@ -40,6 +40,7 @@ class Scheduler(Consumer):
         self.shim = None
         self.root = ''
         self.switches = 0
+        self.until_boundary = False
 
     def add_actor(self, name, func):
         actor = Actor(name, func)
@@ -64,6 +65,12 @@ class Scheduler(Consumer):
         actor.events += 1
         self.remaining -= 1
         if self.remaining <= 0:
+            self._yield(actor)
+
+    def boundary(self, actor):
+        """Actors call this between two of their operations: a slice granted with run length -1 ends here."""
+        if self.until_boundary:
+            self.until_boundary = False
             self._yield(actor)
 
     def mark(self, actor_name, kind, detail=''):
@@ -122,7 +129,9 @@ class Scheduler(Consumer):
                 run = INF
             self.switches += 1
             with self.cond:
-                self.remaining = max(run, 1)
+                # run length -1: until the actor reaches its next operation boundary (or finishes)
+                self.until_boundary = run == -1
+                self.remaining = INF if run == -1 else max(run, 1)
                 self.current = actor.name
                 self.cond.notify_all()
                 deadline = time.time() + self.watchdog
